@@ -22,8 +22,8 @@ def _quantised_linear(
     input: Tensor,
     weight: Tensor,
     bias: Optional[Tensor],
-    fwd_format_tuple: Tuple[int, int],
-    bwd_format_tuple: Tuple[int, int],
+    fwd_format_tuple: Tuple[Any, ...],
+    bwd_format_tuple: Tuple[Any, ...],
 ) -> Tensor:
     fwd_format = tuple_to_format(fwd_format_tuple)
     bwd_format = tuple_to_format(bwd_format_tuple)
@@ -37,8 +37,8 @@ def _quantised_u_linear(
     input: Tensor,
     weight: Tensor,
     bias: Optional[Tensor],
-    fwd_format_tuple: Tuple[int, int],
-    bwd_format_tuple: Tuple[int, int],
+    fwd_format_tuple: Tuple[Any, ...],
+    bwd_format_tuple: Tuple[Any, ...],
     constraint: Optional[str] = "to_output_scale",
 ) -> Tensor:
     fwd_format = tuple_to_format(fwd_format_tuple)
@@ -52,8 +52,8 @@ def _quantised_scaled_dot_product_attention(
     query: Tensor,
     key: Tensor,
     value: Tensor,
-    fwd_format_tuple: Tuple[int, int],
-    bwd_format_tuple: Tuple[int, int],
+    fwd_format_tuple: Tuple[Any, ...],
+    bwd_format_tuple: Tuple[Any, ...],
     **kwargs: Any,
 ) -> Tensor:
     fwd_format = tuple_to_format(fwd_format_tuple)
@@ -67,8 +67,8 @@ def _quantised_u_scaled_dot_product_attention(
     query: Tensor,
     key: Tensor,
     value: Tensor,
-    fwd_format_tuple: Tuple[int, int],
-    bwd_format_tuple: Tuple[int, int],
+    fwd_format_tuple: Tuple[Any, ...],
+    bwd_format_tuple: Tuple[Any, ...],
     **kwargs: Any,
 ) -> Tensor:
     fwd_format = tuple_to_format(fwd_format_tuple)
@@ -95,17 +95,28 @@ def _replace_with_quantised(
     # Ideally we'd pass the formats as kwargs, but it currently causes a torch fx bug.
     # This workaround will suffice for now...
     args = [*node.args]
-    if len(node.args) == 2:  # pragma: no cover
-        args.append(None)
+    kwargs = dict(node.kwargs)
+    if len(args) == 2:  # linear: `bias` omitted or passed by keyword
+        args.append(kwargs.pop("bias", None))
+    extra_args = args[3:]
+    if node.target in (F.scaled_dot_product_attention, U.scaled_dot_product_attention):
+        # The quantised attention wrappers take everything after (query, key, value)
+        # by keyword, so positional attn_mask / dropout_p / is_causal are renamed
+        kwargs.update(zip(("attn_mask", "dropout_p", "is_causal"), extra_args))
+        extra_args = []
     # Breaks when I pass in FPFormat objects, so convert to tuple and back
     args = (
-        args[:3] + [format_to_tuple(fwd_format), format_to_tuple(bwd_format)] + args[3:]
+        args[:3]
+        + [format_to_tuple(fwd_format), format_to_tuple(bwd_format)]
+        + extra_args
     )
 
     assert callable(node.target)
     quantised_fn = _replacement_map[node.target]
     logger.info("quantising function: %s", node)
-    replace_node_with_function(graph, node, quantised_fn, args=tuple(args))
+    replace_node_with_function(
+        graph, node, quantised_fn, args=tuple(args), kwargs=kwargs
+    )
 
 
 def _quantisation_backend(fwd_format: FPFormat, bwd_format: FPFormat) -> Backend:
